@@ -156,6 +156,73 @@ theorem C05_end_to_end {P : Input} {w0 : World} {F : Option Int} {c0 : Int} (S :
     obtain ⟨hk1, hk2⟩ := Exec.mem_linOf.mp hk
     exact I.order q k tq tk hne hq1 hk1 hq2 hk2 hr
 
+section RepeatedRun
+open Uberjob.Phys Uberjob.Exec
+section generic
+variable {α : Type} [DecidableEq α]
+
+theorem ancStep_nil (es : List (Edge α)) : ancStep es [] = [] := by
+  simp [ancStep, dedup]
+
+theorem anc_nil (es : List (Edge α)) (k : Nat) : anc es k [] = [] := by
+  induction k with
+  | zero => rfl
+  | succ k ih => simp [anc, ancStep_nil, ih]
+
+theorem prunePlan_nothing (isLit : α → Bool) (fuel : Nat) (G : PG α) :
+    (prunePlan isLit fuel [] none G).nodes = [] ∧ (prunePlan isLit fuel [] none G).edges = [] := by
+  simp [prunePlan, pruneAnc, anc_nil, pruneLiterals]
+
+end generic
+
+theorem stale_nil_of_fresh {P : Input} (h : ∀ x, P.isStale x = false) : P.stale = [] := by
+  apply List.eq_nil_iff_forall_not_mem.mpr
+  intro x hx
+  have := h x
+  simp [Input.isStale, hx] at this
+
+/-- **A run repeated immediately, with no output requested, performs no call, no read and no write — as a statement about
+    what is executed.**  `P2` is the second run's input: the same plan and registry, no output, and the stale set its stale
+    check computes from the stores the first run left (any first run that returned normally, under any schedule).  Then the
+    graph handed to the engine is EMPTY, so in every reachable state of every schedule nothing has begun. -/
+theorem C05_repeated_run_nothing {P : Input} {w0 : World} {F : Option Int} {c0 : Int} (S : Setup P w0 F c0)
+    {cfg : Engine.Cfg} (hw : 1 ≤ cfg.workers) {s : Engine.St} (h : Engine.Reach (engineGraph P) cfg s)
+    (hc : s.coord = .returned false) (hf : s.failed = [])
+    (P2 : Input) (hsame : P2.toLPlan = P.toLPlan) (hout : P2.out = none)
+    (hstale : ∀ x, P2.isStale x = isStale P2.toLPlan (execOrder P (initX w0 c0) s.okd).w F x) :
+    (engineGraph P2).nodes = [] ∧
+    ∀ (cfg2 : Engine.Cfg) (s2 : Engine.St), Engine.Reach (engineGraph P2) cfg2 s2 → s2.begun = [] := by
+  have hfresh := (C05_end_to_end S hw h hc hf).2
+  have hst : P2.stale = [] := stale_nil_of_fresh (fun x => by rw [hstale x, hsame]; exact hfresh x)
+  have hreq : required P2 = [] := by simp [required, Input.isStale, hst]
+  have hpo : physOut P2 = none := by simp [physOut, hout]
+  have hn : (physFinal P2).nodes = [] := by
+    unfold physFinal; rw [hreq, hpo]; exact (prunePlan_nothing _ _ _).1
+  have he : (engineGraph P2).nodes = [] := by
+    simp [engineGraph, toEngine, physEngine, dropSourceLits, hn, Engine.Graph.ofEdges, Engine.dedup]
+  refine ⟨he, ?_⟩
+  intro cfg2 s2 h2
+  apply List.eq_nil_iff_forall_not_mem.mpr
+  intro x hx
+  have := Engine.begun_in_nodes (engine_wf P2) h2 x hx
+  rw [he] at this
+  cases this
+
+/-- ... and such a second run exists for every first run: the same plan with the empty stale set is what its stale check
+    returns (`C05_end_to_end`), so the hypotheses above are satisfiable by construction. -/
+theorem C05_repeated_run_exists {P : Input} {w0 : World} {F : Option Int} {c0 : Int} (S : Setup P w0 F c0)
+    {cfg : Engine.Cfg} (hw : 1 ≤ cfg.workers) {s : Engine.St} (h : Engine.Reach (engineGraph P) cfg s)
+    (hc : s.coord = .returned false) (hf : s.failed = []) :
+    let P2 : Input := { P with stale := [], out := none }
+    P2.toLPlan = P.toLPlan ∧ P2.out = none ∧
+    ∀ x, P2.isStale x = isStale P2.toLPlan (execOrder P (initX w0 c0) s.okd).w F x := by
+  refine ⟨rfl, rfl, fun x => ?_⟩
+  have := (C05_end_to_end S hw h hc hf).2 x
+  simp only [Input.isStale, List.contains_nil]
+  exact this.symm
+
+end RepeatedRun
+
 /-- The facts about caching.py / pruning.py the model relies on still hold in the current source. -/
 theorem C05_source_shape : facts.ok = true := by decide
 
